@@ -10,15 +10,6 @@ Import ListNotations.
 Local Open Scope N_scope.
 Ltac Zify.zify_post_hook ::= Z.div_mod_to_equations.
 
-Definition lookup_ok (extT : N) (l : lookup) : Prop :=
-  lk_type l < 65536 /\ lk_flags l < 65536 /\ lk_mfs l < 65536 /\ lk_type l <> extT.
-
-(* what the reader must return for a lookup *)
-Definition lookup_matches (data : list N) (l : lookup) (o : lookup_obs) : Prop :=
-  lo_type o = lk_type l /\ lo_flags o = lk_flags l /\
-  lo_mfs o = (if use_mfs l then lk_mfs l else 0) /\
-  Forall2 (fun b p => starts data p b) (lk_subs l) (lo_subpos o).
-
 Lemma read_u16s_flat l : forall rest,
   Forall (fun x => x < 65536) l ->
   read_u16s (length l) (flat_map be16 l ++ rest) = Ok (l, rest).
@@ -52,13 +43,15 @@ Section Reader.
   Let Htot : sum_sizes L < 4294967296 := layout_total ll L HL.
 
   Lemma pos_lt k t s q : find_pos k t s L 0 = Some q -> q < 4294967296.
-  Proof. intros H. apply find_pos_range in H. lia. Qed.
+  Proof using -(HextT Hll).
+    clear HextT Hll. intros H. apply find_pos_range in H. lia. Qed.
 
   Lemma at_pos k t s q :
     find_pos k t s L 0 = Some q ->
     exists c bc, code_eqb k t s c = true /\ chunk_bytes ll extT L c = Ok bc /\
                  starts data (P + q) bc.
-  Proof.
+  Proof using -(HextT Hll).
+    clear HextT Hll.
     intros Hf.
     destruct (content_at ll extT L bytes k t s q Hemit HW Hf) as (c & bc & br & Hc & Hb & Hs).
     exists c, bc. repeat split; [exact Hc|exact Hb|].
@@ -70,7 +63,8 @@ Section Reader.
   Lemma sub_content i l jj b c bc :
     nth_error ll (N.to_nat i) = Some l -> nth_error (lk_subs l) (N.to_nat jj) = Some b ->
     code_eqb KSub i jj c = true -> chunk_bytes ll extT L c = Ok bc -> bc = b.
-  Proof.
+  Proof using -(HextT Hll).
+    clear HextT Hll.
     intros Hl Hb Hc. apply code_eqb_true in Hc. destruct Hc as (Hk & Ht & Hs).
     unfold chunk_bytes. rewrite Hk, Ht, Hs, Hl, Hb. intros H. apply ok_inj in H. now subst.
   Qed.
@@ -80,7 +74,8 @@ Section Reader.
     code_eqb KExt i jj c = true -> chunk_bytes ll extT L c = Ok bc ->
     bc = [0; 1] ++ be16 (lk_type l) ++
          be32 ((pos_or0 (find_pos KSub i jj L 0) + 4294967296 - pos_or0 (find_pos KExt i jj L 0)) mod 4294967296).
-  Proof.
+  Proof using -(HextT Hll).
+    clear HextT Hll.
     intros Hl Hc. apply code_eqb_true in Hc. destruct Hc as (Hk & Ht & Hs).
     unfold chunk_bytes. rewrite Hk, Ht, Hs, Hl. intros H. apply ok_inj in H. now subst.
   Qed.
@@ -94,7 +89,8 @@ Section Reader.
       sub_offsets (length (lk_subs l)) i 0 (pos_or0 (find_pos KTable i 0 L 0)) L = Ok offs /\
       bc = be16 (if replaced then extT else lk_type l) ++ be16 (lk_flags l) ++ be16 (nsubs l) ++
            offs ++ (if use_mfs l then be16 (lk_mfs l) else []).
-  Proof.
+  Proof using -(HextT Hll).
+    clear HextT Hll.
     intros Hl Hc. apply code_eqb_true in Hc. destruct Hc as (Hk & Ht & _).
     unfold chunk_bytes. rewrite Hk, Ht, Hl. cbv zeta.
     destruct (_ && _); [discriminate|].
@@ -111,7 +107,8 @@ Section Reader.
     end.
 
   Lemma spos_lt i jj : spos i jj < 4294967296.
-  Proof.
+  Proof using -(HextT Hll).
+    clear HextT Hll.
     unfold spos. destruct (find_pos KExt i jj L 0) eqn:E; [eapply pos_lt; exact E|].
     destruct (find_pos KSub i jj L 0) eqn:E2; cbn [pos_or0]; [eapply pos_lt; exact E2|lia].
   Qed.
@@ -121,7 +118,8 @@ Section Reader.
     sub_offsets n i j T L = Ok bs ->
     bs = flat_map be16 (map (fun jj => spos i jj - T) (iota n j)) /\
     Forall (fun jj => T <= spos i jj /\ spos i jj - T <= 65535) (iota n j).
-  Proof.
+  Proof using -(HextT Hll).
+    clear HextT Hll.
     induction n as [|n IH]; intros j bs HT; cbn [sub_offsets iota map flat_map].
     - intros H. apply ok_inj in H. subst bs. split; [reflexivity|constructor].
     - fold (spos i j). rewrite c08_maxSubtableOffset_val.
@@ -349,7 +347,8 @@ Section Reader.
            find_pos KSub (N.of_nat k) (N.of_nat j) L 0 = Some Sp /\
            T <= Ep /\ Ep - T <= 65535 /\ Ep <= Sp /\ Sp - Ep < 4294967296 /\
            starts data (P + Sp) b).
-  Proof.
+  Proof using -(HextT Hll).
+    clear HextT Hll.
     intros Hk. destruct (layout_lookup_facts ll L k l Hshape Hk) as [T (HT & HTfit & Hsubs)].
     set (i := N.of_nat k) in *.
     assert (Hl : nth_error ll (N.to_nat i) = Some l) by (unfold i; rewrite Nnat.Nat2N.id; exact Hk).
